@@ -3,15 +3,15 @@
    lists every point (the whole dataset fits in a leaf), then after init_rp_tree — for every
    size n, every heap width k >= 1, every symmetric finite distance table — row p of the
    graph either holds point q or holds only points at least as close to p as q is, for every
-   pair p <> q: the graph is exact up to distance ties.  The later NN-descent rounds only
-   improve rows rank-wise (C13) and keep entries true and distinct (C01); that composition,
-   and the final sort, are validated on the implementation (exact comparison with brute
-   force on single-leaf datasets), not re-proved here.
+   pair p <> q: the graph is exact up to distance ties; and (C03_round_keeps_exact) every
+   later low-memory NN-descent round keeps an exact graph exact.  The high-memory round and
+   the final sort (a permutation of each row) are validated on the implementation (exact
+   comparison with brute force on single-leaf datasets, both memory modes), not composed here.
    What no theorem can carry: "on average at least 90% / 80%" over data families is a
    statistical statement about inputs; it is measured by the harness and reported as a
    measurement (see DESIGN.md 6.3). *)
 From Coq Require Import ZArith List Bool Lia.
-From PV Require Import Base Heap NND HeapProofs HeapTopK NNDProofs C03Proofs.
+From PV Require Import Base Heap NND HeapProofs HeapTopK NNDProofs C01Proofs C03Proofs.
 Import ListNotations.
 Open Scope Z_scope.
 
@@ -26,9 +26,40 @@ Theorem C03_single_leaf_exact :
 Proof. exact single_leaf_exact. Qed.
 Print Assumptions C03_single_leaf_exact.
 
+(* exactness, once reached, survives every later round: a low-memory round of NN-descent (and any
+   further leaf updates) applied to a well-formed exact graph yields an exact graph again, because
+   every push carries a true distance (C01) and a push only ever evicts the farthest entry *)
+Theorem C03_round_keeps_exact :
+  forall (dm : nat -> nat -> Z) (inf : Z) (n k : nat),
+    (0 < k)%nat -> (forall a b, dm a b = dm b a) ->
+    forall g ups T,
+      C01Proofs.GWF dm inf n k g -> ExactG dm n g -> Forall (Forall (C01Proofs.upd_true dm n)) ups ->
+      ExactG dm n (fst (apply_graph_updates_low_memory g ups T)) /\
+      C01Proofs.GWF dm inf n k (fst (apply_graph_updates_low_memory g ups T)).
+Proof. exact apply_low_keeps_exact. Qed.
+Print Assumptions C03_round_keeps_exact.
+
+Theorem C03_leaf_updates_keep_exact :
+  forall (dm : nat -> nat -> Z) (inf : Z) (n k : nat),
+    (0 < k)%nat -> (forall a b, dm a b = dm b a) ->
+    forall g ups,
+      C01Proofs.GWF dm inf n k g -> ExactG dm n g -> Forall (Forall (C01Proofs.upd_true dm n)) ups ->
+      ExactG dm n (fold_left (fun g ul => fold_left apply_both ul g) ups g).
+Proof. exact leaf_updates_keep_exact. Qed.
+
 (* non-vacuity: 4 points on a line, k = 2: row 0 keeps its two nearest neighbours 1 and 2 *)
 Example C03_example :
   let dm := fun a b : nat => Z.abs (Z.of_nat a * Z.of_nat a - Z.of_nat b * Z.of_nat b) in
   let g := init_rp_tree 1000 dm (make_heap 1000 4 2) [[2; 0; 3; 1]] in
   (getRow (g_ind g) 0, getRow (g_dist g) 0) = ([2; 1], [4; 1]).
 Proof. vm_compute. reflexivity. Qed.
+
+(* the two theorems meet: the graph after init_rp_tree on a single all-covering leaf satisfies the
+   hypothesis ExactG of C03_round_keeps_exact (and GWF by C01_invariant_init_rp_tree) *)
+Theorem C03_single_leaf_ExactG :
+  forall (dm : nat -> nat -> Z) (inf : Z) (n k : nat),
+    (0 < k)%nat -> (forall a b, dm a b = dm b a) -> (forall a b, dm a b < inf) ->
+    forall leaf, NoDup leaf -> (forall x, In x leaf -> 0 <= x < Z.of_nat n) -> (forall i, (i < n)%nat -> In (Z.of_nat i) leaf) ->
+    ExactG dm n (init_rp_tree inf dm (make_heap inf n k) [leaf]).
+Proof. exact single_leaf_ExactG. Qed.
+Print Assumptions C03_single_leaf_ExactG.
